@@ -69,7 +69,11 @@ Supported subset
               any other `if` duplicates the continuation into both branches.
   fragments   RouteTr (the section-letter chain of LASFile.read), HeaderPostTr (read_header_line's loop
               over m.groupdict()): located by shape, every other statement of the host function must
-              not touch the fragment's variables.
+              not touch the fragment's variables.  ParserInitTr (SectionParser.__init__ as a function of
+              (title, version) returning the attributes it sets): every self.<attr> becomes a local
+              variable, `self.func = self.<method>` stores the method's name, an attribute some path
+              leaves unset is None there (`maybe_unset`); also `version == <float key>`,
+              `name in table[version]`, any([...]), tuples with a declared type.
 """
 import ast
 import os
@@ -493,6 +497,9 @@ class Tr:
                     self.err(n, "dict literal value may raise")
                 code = "pyo_dict_set (%s) %s (%s)" % (code, cstr(k.value), ve.code)
             return E(code, want)
+        if isinstance(n, ast.Tuple) and is_type(want, "tuple") and len(n.elts) == len(want) - 1:
+            es = [self.expr_want(x, env, t) for x, t in zip(n.elts, want[1:])]
+            return self.strict(es, lambda c: "(" + ", ".join(c) + ")", want)
         return self.coerce(self.expr(n, env), want, n)
 
     def listcomp(self, n, env):
@@ -615,9 +622,24 @@ class Tr:
         if len(n.ops) != 1:
             self.err(n, "chained comparison")
         op = n.ops[0]
-        a, b = self.expr(n.left, env), self.expr(n.comparators[0], env)
         neg = isinstance(op, (ast.NotEq, ast.NotIn, ast.IsNot))
         wrap = (lambda s: "negb (%s)" % s) if neg else (lambda s: s)
+        r = n.comparators[0]
+        if isinstance(op, (ast.Eq, ast.NotEq)) and isinstance(r, ast.Constant) and type(r.value) is float:
+            # version == 3.0: the version keys of ORDER_DEFINITIONS as Gen/Tables.v names them
+            a = self.expr(n.left, env)
+            tags = {1.0: "V10", 1.2: "V12", 2.0: "V20", 2.1: "V21", 3.0: "V30"}
+            if a.ty != VERSION or r.value not in tags:
+                self.err(n, "comparison of %s with the float %r" % (a.ty, r.value))
+            return self.strict([a], lambda c: wrap("pyo_version_eqb (%s) %s" % (c[0], tags[r.value])), BOOL)
+        if isinstance(op, (ast.In, ast.NotIn)) and isinstance(r, ast.Subscript) and isinstance(r.value, ast.Name) \
+                and env.get(r.value.id) == OTABLE:
+            # section in table[version]: every version of Gen/Tables.v is a key of the table
+            a, t, v = self.expr(n.left, env), self.expr(r.value, env), self.expr(r.slice, env)
+            if a.ty != STR or v.ty != VERSION:
+                self.err(n, "membership of %s in the order table at %s" % (a.ty, v.ty))
+            return self.strict([t, v, a], lambda c: wrap("pyo_is_some (pyo_order_lookup (%s) (%s) (%s))" % (c[0], c[1], c[2])), BOOL)
+        a, b = self.expr(n.left, env), self.expr(r, env)
         if isinstance(op, (ast.Eq, ast.NotEq)):
             if a.ty == STR and b.ty == STR:
                 return self.strict([a, b], lambda c: wrap("str_eqb (%s) (%s)" % (c[0], c[1])), BOOL)
@@ -799,6 +821,11 @@ class Tr:
                 self.err(n, "len of %s" % (a.ty,))
             if f.id == "str" and len(n.args) == 1:
                 return self.to_str(self.expr(n.args[0], env), n)
+            if f.id == "any" and len(n.args) == 1:
+                a = self.expr(n.args[0], env)
+                if a.ty != LIST(BOOL):
+                    self.err(n, "any of %s" % (a.ty,))
+                return self.strict([a], lambda c: "existsb (fun b_ : bool => b_) (%s)" % c[0], BOOL)
             if f.id == "max" and len(n.args) == 1:
                 a = self.expr(n.args[0], env)
                 if a.ty != LIST(INT):
@@ -1002,9 +1029,9 @@ class Tr:
         """(let-prefix, suffix, new env) for name = e"""
         env = dict(env)
         ty = e.ty
-        if name in env and env[name] is not None and env[name] != ty:
+        if name in env and env[name] == DYN and ty != DYN:
             try:
-                e = self.coerce(e, env[name], node)
+                e = self.coerce(e, DYN, node)      # a dyn variable stays dyn (str / int values are injected)
             except TranslateError:
                 pass                 # the name is rebound with another type (each path is typed on its own)
             ty = e.ty
@@ -1040,6 +1067,8 @@ class Tr:
                 return self.rec_call(s.value, env)
             if self.frames[-1].get("top") and self.spec.get("returns_lambda"):
                 self.err(s, "return of something other than the declared lambda")
+            if isinstance(s.value, ast.Tuple):
+                return self.ret(self.expr_want(s.value, env, self.frames[-1]["ret"]), s)
             return self.ret(self.expr(s.value, env), s)
         if isinstance(s, ast.Raise):
             if rest:
@@ -1403,9 +1432,16 @@ class Tr:
             (a, b, envs), partial = self.with_retry(build)
         # a name is joined when it is defined on every path out of the statement
         joined, env3 = [], dict(env)
+        unset = self.spec.get("maybe_unset", ())
         for nm in names:
             tys = [e.get(nm) for e in envs]
-            if None in tys:
+            if None in tys and nm in unset and any(t is not None for t in tys):
+                # an attribute that some paths leave unset: None on those paths
+                base = self.unify([t[1] if is_type(t, "opt") else t for t in tys if t is not None], s)
+                joined.append(nm)
+                env3[nm] = OPT(base)
+                self.ctype(env3[nm], s)
+            elif None in tys:
                 env3[nm] = None         # possibly undefined afterwards
             else:
                 joined.append(nm)
@@ -1414,7 +1450,8 @@ class Tr:
         if not joined and not partial:
             return go(env3)
         for k, e in enumerate(envs):
-            vals = [self.coerce(E(self.var(nm), e[nm]), env3[nm], s).code for nm in joined]
+            vals = [self.coerce(E(self.var(nm), e[nm]), env3[nm], s).code if e.get(nm) is not None
+                    else "(None : %s)" % self.ctype(env3[nm], s) for nm in joined]
             tup = ("(" + ", ".join(vals) + ")" if len(vals) > 1 else vals[0]) if vals else "tt"
             if partial:
                 tup = "Some %s" % (tup if tup.startswith("(") or " " not in tup else "(%s)" % tup)
@@ -1673,6 +1710,45 @@ class HeaderPostTr(Tr):
         pass        # the declared parameter is the fragment's free name mdict
 
 
+class ParserInitTr(Tr):
+    """SectionParser.__init__ as the function (title, version) -> (func, section_name2, default_order,
+    orders): every self.<attr> is read and written as a local variable attr_<attr> (self is not passed
+    to anything), `self.func = self.<method>` stores the method's name, and the attributes the spec
+    lists as `maybe_unset` are None where a path never assigns them."""
+
+    def body_of(self, fn):
+        tr = self
+        tags = self.spec["method_tags"]
+
+        class Rw(ast.NodeTransformer):
+            def visit_Attribute(self, node):
+                self.generic_visit(node)
+                if isinstance(node.value, ast.Name) and node.value.id == "self":
+                    if node.attr in tags:
+                        if not isinstance(node.ctx, ast.Load):
+                            tr.err(node, "assignment to the method self.%s" % node.attr)
+                        return ast.copy_location(ast.Constant(value=node.attr), node)
+                    return ast.copy_location(ast.Name(id="attr_" + node.attr, ctx=node.ctx), node)
+                return node
+        for x in ast.walk(fn):
+            if isinstance(x, ast.Name) and (x.id.startswith("attr_") or (x.id == "self" and not self.is_attr_base(x, fn))):
+                self.err(x, "self is used other than as self.<attribute>")
+            if isinstance(x, ast.Return):
+                self.err(x, "return in __init__")
+        body = [Rw().visit(s) for s in fn.body]
+        ret = ast.parse("return (%s)" % ", ".join("attr_" + a for a in self.spec["result_attrs"])).body[0]
+        for x in ast.walk(ret):
+            x.lineno = fn.body[-1].end_lineno
+        out = body + [ret]
+        for s in out:
+            ast.fix_missing_locations(s)
+        return out
+
+    @staticmethod
+    def is_attr_base(name, fn):
+        return any(isinstance(p, ast.Attribute) and p.value is name for p in ast.walk(fn))
+
+
 SPECS = [
     dict(py="configure_metadata_patterns", file="reader.py", cls=None, coq="py_configure_metadata_patterns",
          params=[("line", STR), ("section_name", STR)], ret=PATS, mode="patterns"),
@@ -1723,6 +1799,12 @@ SPECS += [
          extra_binders=NUM_BINDERS, oracles=NUM_ORACLES, float_to_dyn="num_of_float nops",
          const_exprs={'defaults.READ_SUBS["comma-decimal-mark"][0]': ("(rx_sub_comma, tpl_sub_comma)", TUPLE(REGEX, TPL))},
          module_regexes={"NUMERIC_LITERAL_REGEXP": "rx_numeric_literal"}),
+    dict(py="__init__", file="reader.py", cls="SectionParser", coq="py_parser_init", translator=ParserInitTr,
+         params=[("self", None), ("title", STR), ("version", VERSION)], defaults={"version": "1.2"},
+         method_tags=("curves", "params", "metadata"), result_attrs=("func", "section_name2", "default_order", "orders"),
+         maybe_unset=("attr_default_order", "attr_orders"), locals={"attr_orders": DICT(STR, STR)},
+         const_exprs={"defaults.ORDER_DEFINITIONS": ("order_definitions", OTABLE)},
+         ret=TUPLE(STR, STR, OPT(STR), OPT(DICT(STR, STR)))),
     dict(py="curves", file="reader.py", cls="SectionParser", coq="py_parser_curves",
          params=[("self", None)], kwarg=("keys", KEYS), ret=ITEM, constructors=("CurveItem",),
          self_methods={"strip_brackets": "SectionParser.strip_brackets"}),
